@@ -962,7 +962,10 @@ func c09Gen() *rapid.Generator[c09Case] {
 		}
 		size := func() int {
 			if bigMode && rapid.IntRange(0, 9).Draw(t, "big") < 7 {
-				return rapid.IntRange(9<<20, 26<<20).Draw(t, "bigsize")
+				if rapid.IntRange(0, 3).Draw(t, "bigclass") == 0 {
+					return rapid.IntRange(9<<20, 17<<20).Draw(t, "bigsize")
+				}
+				return rapid.IntRange(17<<20, 26<<20).Draw(t, "bigsize") // two of these fill a file, the third rotates
 			}
 			switch rapid.IntRange(0, 9).Draw(t, "sizeclass") {
 			case 0:
@@ -1005,7 +1008,7 @@ func c09Gen() *rapid.Generator[c09Case] {
 			if bigMode { // rotation needs ~3 big puts in one session; erasing in between makes the rotated file deletable
 				w[0], w[5], w[6] = 40, 2, 4
 				if known[s] > 0 {
-					w[2] = 40
+					w[2] = 30 * known[s]
 				}
 			}
 			if unread[s] > 0 {
@@ -1030,6 +1033,9 @@ func c09Gen() *rapid.Generator[c09Case] {
 				notPut(s)
 			case 2:
 				op := c09Op{K: "erase", S: s, R: rapid.IntRange(0, 50).Draw(t, "r"), C: rapid.IntRange(0, 3).Draw(t, "cnt"), Dead: rapid.IntRange(0, 9).Draw(t, "dead") == 0}
+				if bigMode && rapid.IntRange(0, 3).Draw(t, "eraseall") != 0 {
+					op.C, op.Dead = 3, false
+				}
 				c.Ops = append(c.Ops, op)
 				if !op.Dead {
 					known[s] = max(0, known[s]-op.C-1)
